@@ -184,7 +184,7 @@ class Model:
             ivs = node_intervals(node, None)
             if t == "Any" and self.flags & int(_DOTALL):
                 ivs = [(0, MAXCP)]
-            self.sets[id(node)] = ivs
+            self.sets[id(node)] = tuple(ivs)
         elif t == "Sequence":
             for it in node.items:
                 self._prepare(it)
@@ -295,7 +295,7 @@ class Model:
                     ivs = [(v, v)]
                     if cf & int(_IGNORE):
                         ivs = _case_expand(ivs, cf)
-                    if not eng.branch(in_intervals(ch[i + j], ivs)):
+                    if not eng.branch(in_intervals(ch[i + j], tuple(ivs))):
                         return None
                 return k(i + len(chars))
             raise Unsupported(f"regex node {t}")
